@@ -241,6 +241,13 @@ func (e *c09Env) sweep(cs c09Case) []disc {
 		return r, d
 	}
 	for _, b := range buckets {
+		// a page size of zero together with a position (empty, or before the first key)
+		for _, q := range [][][2]string{s3x.Q("max-keys", "0", "marker", ""), s3x.Q("max-keys", "0", "marker", "0"), s3x.Q("list-type", "2", "max-keys", "0", "start-after", "0"), s3x.Q("list-type", "2", "max-keys", "0", "continuation-token", "MA=="),
+			s3x.Q("list-type", "2", "max-keys", "0", "continuation-token", ""), s3x.Q("versions", s3x.Bare, "max-keys", "0", "key-marker", "0"), s3x.Q("uploads", s3x.Bare, "max-uploads", "0", "key-marker", "0")} {
+			if _, d := check(lreq{Method: "GET", Bucket: b, Query: q, Family: "zeroPage"}); len(d) > 0 {
+				return d
+			}
+		}
 		for _, v := range c09EdgeInts {
 			for _, q := range [][][2]string{s3x.Q("max-keys", v), s3x.Q("list-type", "2", "max-keys", v), s3x.Q("versions", s3x.Bare, "max-keys", v), s3x.Q("uploads", s3x.Bare, "max-uploads", v)} {
 				if _, d := check(lreq{Method: "GET", Bucket: b, Query: q, Family: "edgeInts"}); len(d) > 0 {
